@@ -386,7 +386,8 @@ def key_family(rng, n_keys, min_len=0, max_len=16, alias=True):
     return keys[:n_keys]
 
 
-SPECIAL_VALUES = [0, 1, 1, 1, 2, 3, 7, 100, 10**4, CAP - 3, CAP - 2, CAP - 1, CAP, CAP + 1, CAP + 2, 2**32 + 5, 2**40]
+SPECIAL_VALUES = [0, 1, 1, 1, 2, 3, 7, 100, 10**4, CAP - 3, CAP - 2, CAP - 1, CAP, CAP + 1, CAP + 2, 2**32 + 5, 2**40,
+                  2**31, 2**31 - 10, CAP // 2, 2**31 + 100]  # two of these overflow a cell only when they meet
 
 
 def rand_value(rng, big=0.15, zero=0.05):
